@@ -439,6 +439,9 @@ Fixpoint default_names (m : list item) : list str :=
 Definition value_exports (m : list item) : list (ename * pos) :=
   named_exports m ++ flat_map (fun n => map (fun p => (Default, p)) (resolve n m)) (default_names m).
 
+(* the same export, as seen in a document whose positions all have file index 0 *)
+Definition zero_export (x : ename * pos) : ename * pos := (fst x, zero_file (snd x)).
+
 (** what a JS binding carries: ["const "; write_for(name); " = "; body] *)
 Fixpoint js_bindings (ops : list wop) : list (str * pos * str) :=
   match ops with
